@@ -71,6 +71,8 @@ def sparse_nus():
         k += 1
         if k > 119: break
     s |= {301, 500, 999, 1000, 5000, 9999, 10000, 49999, 50000, 99997, 99998, 99999}
+    # n - 1 for sample sizes that tests and users typically choose (the repository's own tests use 500)
+    s |= {399, 499, 599, 749, 1499, 1999, 2499, 4999, 19999}
     return sorted(s)
 
 def main():
